@@ -57,11 +57,16 @@ var rules = []rule{
 	{"internal/domain_matcher", nil, nil, []string{"*"}},
 	{"internal/cache", map[string][2]string{
 		"github.com/redis/rueidis": {fac + "vredis", "rueidis"},
+		// the entry lock of the memory cache: a reader that leaves it too
+		// early meets the backend's deletion callback only if the lock is a
+		// scheduling point (the callback runs on the backend's own goroutine,
+		// outside its internal mutex)
+		"sync": {fac + "vsync", "sync"},
 	}, nil, nil},
 	{"internal/pool", map[string][2]string{
 		"github.com/IrineSistiana/bytespool": {fac + "vbytes", "bytespool"},
 		"github.com/IrineSistiana/gopool":    {fac + "vgopool", "gopool"},
-	}, nil, nil},
+	}, nil, []string{"pool.go"}},
 }
 
 const routerShim = `package router
@@ -206,6 +211,7 @@ func main() {
 	}
 	if *quicOut != "" {
 		must(patchQuicGo(*repo, *quicOut))
+		must(patchOtter(*repo, filepath.Join(filepath.Dir(*quicOut), "otter")))
 	}
 	ov, _ := json.MarshalIndent(map[string]any{"Replace": replace}, "", " ")
 	must(os.WriteFile(filepath.Join(*out, "overlay.json"), ov, 0o644))
@@ -394,6 +400,77 @@ func patchQuicGo(repo, out string) error {
 		fmt.Println("simgen: quic-go", string(m[1]), "copied and patched (loss-detection timeout at exactly Now)")
 	}
 	return os.WriteFile(stamp, m[1], 0o644)
+}
+
+// patchOtter copies the otter version pinned by the repository's go.mod out
+// of the module cache and turns one constant into a knob: the cache applies
+// writes (and calls the deletion listener for replaced, deleted and evicted
+// entries) in batches of 64 write tasks.  A run of a few dozen queries never
+// fills a batch, so the listener - the only caller of the repository's
+// releaseEntry besides expiry - would never run.  The batch size becomes a
+// per-run knob (1, 4, 16 or the shipped 64); nothing else changes.
+func patchOtter(repo, out string) error {
+	gm, err := os.ReadFile(filepath.Join(repo, "go.mod"))
+	if err != nil {
+		return err
+	}
+	m := regexp.MustCompile(`github.com/maypok86/otter (v[0-9][^\s]*)`).FindSubmatch(gm)
+	if m == nil {
+		return fmt.Errorf("otter version not found in go.mod")
+	}
+	cache := os.Getenv("GOMODCACHE")
+	if cache == "" {
+		home, _ := os.UserHomeDir()
+		cache = filepath.Join(home, "go", "pkg", "mod")
+	}
+	src := filepath.Join(cache, "github.com", "maypok86", "otter@"+string(m[1]))
+	stamp := filepath.Join(out, ".version")
+	if b, err := os.ReadFile(stamp); err == nil && string(b) == string(m[1])+" knob1" {
+		return nil
+	}
+	os.RemoveAll(out)
+	patched := false
+	err = filepath.Walk(src, func(p string, info os.FileInfo, err error) error {
+		if err != nil {
+			return err
+		}
+		rel, _ := filepath.Rel(src, p)
+		if info.IsDir() {
+			switch rel {
+			case "cmd", "assets", "scripts", ".github":
+				return filepath.SkipDir
+			}
+			return os.MkdirAll(filepath.Join(out, rel), 0o755)
+		}
+		base := filepath.Base(p)
+		if strings.HasSuffix(base, "_test.go") || !(strings.HasSuffix(base, ".go") || base == "go.mod" || base == "go.sum" || base == "LICENSE") {
+			return nil
+		}
+		b, err := os.ReadFile(p)
+		if err != nil {
+			return err
+		}
+		if rel == filepath.Join("internal", "core", "cache.go") {
+			const anchor = "\tbufferCapacity := 64\n"
+			if strings.Count(string(b), anchor) == 2 { // the write loop and the expiry sweep
+				b = []byte(strings.ReplaceAll(string(b), anchor, "\tbufferCapacity := SimBatch\n") + "\n// SimBatch is the number of write tasks applied together (simulation knob).\nvar SimBatch = 64\n")
+				patched = true
+			}
+		}
+		return os.WriteFile(filepath.Join(out, rel), b, 0o644)
+	})
+	if err != nil {
+		return err
+	}
+	if !patched {
+		return fmt.Errorf("otter: batch-size anchor not found")
+	}
+	knob := "package otter\n\nimport \"github.com/maypok86/otter/internal/core\"\n\n// SetSimBatch sets the write batch size of caches built afterwards (simulation knob).\nfunc SetSimBatch(n int) {\n\tif n > 0 {\n\t\tcore.SimBatch = n\n\t}\n}\n"
+	if err := os.WriteFile(filepath.Join(out, "simknob.go"), []byte(knob), 0o644); err != nil {
+		return err
+	}
+	fmt.Println("simgen: otter", string(m[1]), "copied, write batch size is a knob")
+	return os.WriteFile(stamp, []byte(string(m[1])+" knob1"), 0o644)
 }
 
 var rangeRe = regexp.MustCompile(`(?m)^(\s*)for (\w+)(?:, (\w+))? := range ([\w.]+) \{[ \t]*$`)
